@@ -54,7 +54,7 @@ COMPONENTS = {
     "stub": ["file system (SimFS)", "raw byte stream (SimRaw)", "process exit (SystemExit trap)",
              "time (step clock on Base.__new__ + wall watchdog)"],
 }
-PROBES = ["file_changed_between_opens", "include_dimension", "focused_single_token_fault", "decode_handler_fired", "short_read_split_multibyte", "trunc_inside_literal",
+PROBES = ["deep_nest_with_damaged_closer", "file_changed_between_opens", "include_dimension", "focused_single_token_fault", "decode_handler_fired", "short_read_split_multibyte", "trunc_inside_literal",
           "trunc_inside_continuation", "trunc_inside_directive", "system_exit_trapped",
           "eio_on_second_open", "eio_on_first_open", "cli_damaged_first", "cli_damaged_middle",
           "cli_damaged_last", "outcome_tree", "outcome_syntax", "faultfree_compared"]
@@ -246,11 +246,69 @@ def _focused_case(run_seed, cfg, case):
     return case
 
 
+def _nest_case(sw, case):
+    """Deep nests of loops and IF constructs whose innermost closer is damaged: the parser's
+    backtracking must stay within the time bound (no exponential retry of enclosing rules)."""
+    depth = sw.randrange(3, 6)
+    nif = sw.randrange(0, 4)
+    kind = sw.choice(["labelled", "labelled", "shared", "block", "named", "mixed"])
+    lines = ["program nest", "integer :: i1, i2, i3, i4, i5", "real :: a(10), x"]
+    closers = []
+    ind = ""
+    for d in range(1, depth + 1):
+        k = kind if kind != "mixed" else sw.choice(["labelled", "block", "named"])
+        lab = 10 * d if k != "shared" else 99
+        if k in ("labelled", "shared"):
+            lines.append(ind + "do %d i%d = 1, 3" % (lab, d))
+            if k == "shared":
+                if d == 1:
+                    closers.append("%d continue" % lab)
+            else:
+                closers.append("%d continue" % lab)
+        elif k == "named":
+            lines.append(ind + "lp%d: do i%d = 1, 3" % (d, d))
+            closers.append("end do lp%d" % d)
+        else:
+            lines.append(ind + "do i%d = 1, 3" % d)
+            closers.append("end do")
+        ind += " "
+        for j in range(nif):
+            lines.append(ind + "if (x > %d.0) then" % j)
+            lines.append(ind + " x = x + %d.0" % d)
+            lines.append(ind + "end if")
+    lines.append(ind + "a(1) = x")
+    body_end = len(lines)
+    for c in reversed(closers):
+        lines.append(c)
+    lines.append("end program nest")
+    how = sw.choice(["label_char", "delete_closer", "truncate", "delete_if_end", "none"])
+    muts = [{"kind": "nest_" + how, "changed": how != "none", "depth": depth, "ifs": nif,
+             "loops": kind}]
+    if how == "label_char" and closers:
+        k = body_end  # innermost closer
+        lines[k] = lines[k][1:] if lines[k][:1].isdigit() else lines[k] + "x"
+    elif how == "delete_closer" and closers:
+        del lines[body_end + sw.randrange(len(closers))]
+    elif how == "truncate":
+        lines = lines[: sw.randrange(4, len(lines))]
+    elif how == "delete_if_end":
+        cand = [k for k, ln in enumerate(lines) if ln.strip() == "end if"]
+        if cand:
+            del lines[sw.choice(cand)]
+    text = "\n".join(lines) + "\n"
+    case.update({"mode": "parse", "reader": "string", "std": sw.choice(["f2003", "f2008"]),
+                 "opts": {"ignore_comments": True}, "files": {"main.f90": _l1(text.encode())},
+                 "faults": {}, "mutations": muts})
+    return case
+
+
 def generate(run_seed, cfg):
     st = rng.Streams(run_seed)
     sw = st("swarm")
     if cfg.get("index", 0) % 3 == 2:
         return _focused_batch(run_seed, cfg, {"prop": ID})
+    if cfg.get("index", 0) % 30 == 7:
+        return _nest_case(sw, {"prop": ID})
     std = sw.choice(["f2003", "f2008"])
     opts = {"ignore_comments": sw.random() < 0.5}
     if sw.random() < 0.25:
@@ -497,6 +555,8 @@ def execute(case):
             io_fault = "eio_at" in file_faults or file_faults.get("noseek")
             if any(m["kind"].startswith("include_") for m in case["mutations"]):
                 probe("include_dimension")
+            if any(m["kind"].startswith("nest_") for m in case["mutations"]):
+                probe("deep_nest_with_damaged_closer")
             if any(m["kind"].startswith("changed_between_opens") for m in case["mutations"]):
                 probe("file_changed_between_opens")
             source = "main.f90" if kind != "string" else data.decode("utf-8", "replace")
